@@ -85,7 +85,8 @@ class Recorder:
         return self.float_ids.setdefault(float(t), len(self.float_ids) + 1)
 
     def ev(self, name, step, level, extra=None):
-        e = [name, step.status.slot if step is not None else -1, -1 if level is None else level]
+        slot = step.status.slot if step is not None else None
+        e = [name, -1 if slot is None else slot, -1 if level is None else level]
         if extra is not None:
             e.append(extra)
         self.events.append(e)
